@@ -127,9 +127,32 @@ def _repo():
     return os.environ.get('DASSH_REPO', '/repo')
 
 
+def _samples():
+    """live objects for the analyser's run-time type probe (which `.update(T)` receivers are dassh Materials)"""
+    import tempfile, shutil
+    sys.path.insert(0, _repo())
+    from pvc import geninput as G
+    wd = tempfile.mkdtemp(prefix='c06s_')
+    out = {}
+    try:
+        for pm in ('fuel', 'pin'):
+            try:
+                r = G.build(G.write_problem(os.path.join(wd, pm), asms={'a1': dict(pin_model=pm)}))[1]
+                rr = r.assemblies[0].rodded
+                out.setdefault('RoddedRegion', rr)
+                out.setdefault('Assembly', r.assemblies[0])
+                if pm == 'fuel':
+                    out['PinModel'] = rr.pin_model
+            except BaseException:
+                pass
+    finally:
+        shutil.rmtree(wd, ignore_errors=True)
+    return out
+
+
 def static_ownership():
     from pvc import frames
-    ow = frames.Ownership(_repo())
+    ow = frames.Ownership(_repo(), samples=_samples())
     out = []
     for cls, entry in SWEEP.items():
         S, F = ow.clone_shared(cls)
@@ -204,6 +227,10 @@ def _state(a):
     out = [a.temp_coolant.copy(), a.temp_duct_mw.copy(), np.array([a.pressure_drop])]
     if a.temp_bypass is not None:
         out.append(a.temp_bypass.copy())
+    if a.has_rodded and getattr(a.rodded, 'pin_model', None) is not None:
+        out.append(np.array(a.rodded.pin_temps, dtype=float).copy())
+        for k in sorted(a._peak.get('pin', {})):
+            out.append(np.array([a._peak['pin'][k][0]] + list(a._peak['pin'][k][2]), dtype=float))
     return out
 
 
@@ -217,6 +244,9 @@ def metamorphic(case):
             asms = {'a1': dict(unrodded=[('lower', 0.0, 0.3, '6node'), ('upper', 0.8, 1.0, 'simple')])}
         if case == 'double_duct':
             asms = {'a1': dict(n_duct=2)}
+        if case in ('fuel_model', 'pin_model'):
+            # the pin model object (and its fuel / clad materials) is shared by all assemblies of the type
+            asms = {'a1': dict(pin_model=case.split('_')[0])}
         extra = '    param_update_tol = 0.01\n' if case == 'param_update_tol' else ''
         alone = _run(wd, 'alone', {'a1': asms['a1']}, [('a1', 1, 1, 0.06)], extra=extra)
         others = [('a1', 2, k, 0.2 + 0.07 * k) for k in range(1, 7)]
@@ -244,7 +274,7 @@ def metamorphic(case):
         shutil.rmtree(wd, ignore_errors=True)
 
 
-CASES = ['same_type', 'mixed', 'sixnode', 'double_duct', 'param_update_tol']
+CASES = ['same_type', 'mixed', 'sixnode', 'double_duct', 'param_update_tol', 'fuel_model', 'pin_model']
 
 
 def extra_checks(tier, seed):
